@@ -482,6 +482,8 @@ func (r *Runner) gen(root, top string, w *World, g *GenSpec, inputs map[string]s
 	bin := r.Node.SimBin
 	if g.Orig {
 		bin = r.Node.OrigBin
+	} else if g.CustomCLI {
+		bin = r.Node.SimCustomBin
 	}
 	n := r.counter.Add(1)
 	planPath := filepath.Join(top, fmt.Sprintf("plan-%d.json", n))
